@@ -54,6 +54,21 @@ def run(ctx):
     rule_c(ctx, cr)
     rule_def(ctx, cr)
     rule_h(ctx, cr)
+    ctx.rule("C14.i", "the columns RENUM splices at are the parser's columns, which advance by the "
+             "character count of each token's LISTED text (shared with C19.b): a token measured "
+             "differently from how it lists shifts every later operand of the line")
+    from rules import c19
+
+    class _P:
+        def __init__(self, c):
+            self.c = c
+
+        def __getattr__(self, n):
+            return getattr(self.c, n)
+
+        def check(self, cond, rule, key, *a, **k):
+            return self.c.check(cond, "C14.i", key, *a, **k)
+    c19.rule_b(_P(ctx), cr)
 
 
 def referencing_variants(ctx, cr):
